@@ -6,7 +6,12 @@ import PV.Driver.Util
     `cas32 OLD NEW`, `and32 V`, `or32 V`, `xor32 V` and the same with `64` (pointer-sized word; no inc / dec).
     Answer: `<returned value | - > <word afterwards>` (unsigned decimal; booleans 1 / 0), computed by
     `interp` / `simInterp` of the generated record.  When the spec function (`PV.Atomics.spec`) answers
-    differently, or the record cannot be evaluated at this width, ` SPECDIFF <spec answer>` is appended. -/
+    differently, or the record cannot be evaluated at this width, ` SPECDIFF <spec answer>` is appended.
+    `T <op …>`: the op executed by a second thread (same answer: the word and, for sim, the mutex are process-wide).
+    `natives`: native mutex lock / unlock calls and distinct mutexes since the last `natives`, from
+    `SimFn.nativeCalls` of the generated records and the life-cycle model `simInitStep` (c11 / sync: `0 0 0`).
+    `init` / `shutdown`: `p_atomic_thread_init ()` / `_shutdown ()` (the harness has called init once at start).
+    `lockfree`: the generated constant; spec: TRUE for c11 / sync, FALSE for sim. -/
 namespace PV.Driver.Atomics
 open PV.Atomics PV.Generated.Atomics
 
@@ -14,6 +19,12 @@ structure St where
   variant : String := ""
   w32 : BitVec 32 := 0
   w64 : BitVec 64 := 0
+  /-- sim: `pp_atomic_mutex` (identity of the mutex, `none` = NULL); the harness starts after one init call -/
+  mutex : Option Nat := simInitStep simInit 0 none .init
+  nextId : Nat := 1
+  nLock : Nat := 0
+  nUnlock : Nat := 0
+  used : List Nat := []           -- distinct mutexes locked / unlocked since the last `natives`
 
 def fmtRet {n : Nat} : Ret n → String
   | .void => "-"
@@ -48,12 +59,44 @@ def opOf : String → Option (Op × Nat)
   | "xor" => some (.xor, 1)
   | _ => none
 
-def step (s : St) (toks : List String) : IO (St × Bool) := do
+/-- bookkeeping of the native calls one operation makes (sim only) -/
+def noteNatives (s : St) (op : Op) (ptr : Bool) : St :=
+  if s.variant = "sim" then
+    match simTable.find? (fun f => opEq f.op op && f.ptr == ptr), s.mutex with
+    | some f, some id =>
+      let c := f.nativeCalls true
+      { s with nLock := s.nLock + c.1, nUnlock := s.nUnlock + c.2,
+               used := if c.1 + c.2 > 0 ∧ !s.used.contains id then id :: s.used else s.used }
+    | _, _ => s
+  else s
+
+def stepCore (s : St) (toks : List String) : IO (St × Bool) := do
   match toks with
   | ["variant", v] =>
     if v = "c11" ∨ v = "sync" ∨ v = "sim" then IO.println "ok"; return ({ s with variant := v }, false)
     else IO.println "bad-op"; return (s, false)
   | ["reset"] => IO.println "ok"; return ({ s with w32 := 0, w64 := 0 }, false)
+  | "T" :: _ => IO.println "bad-op"; return (s, false)
+  | ["natives"] =>
+    IO.println s!"{s.nLock} {s.nUnlock} {s.used.length}"
+    return ({ s with nLock := 0, nUnlock := 0, used := [] }, false)
+  | ["init"] =>
+    IO.println "ok"
+    if s.variant = "sim" then
+      return ({ s with mutex := simInitStep simInit s.nextId s.mutex .init, nextId := s.nextId + 1 }, false)
+    else return (s, false)
+  | ["shutdown"] =>
+    IO.println "ok"
+    if s.variant = "sim" then return ({ s with mutex := simInitStep simInit s.nextId s.mutex .shutdown }, false)
+    else return (s, false)
+  | ["lockfree"] =>
+    if s.variant = "" then IO.println "bad-op"; return (s, false)
+    else
+      let m := if s.variant = "c11" then lockFreeC11 else if s.variant = "sync" then lockFreeSync else lockFreeSim
+      let sp := s.variant != "sim"
+      let f (b : Bool) := if b then "1" else "0"
+      IO.println (if m = sp then f m else f m ++ " SPECDIFF " ++ f sp)
+      return (s, false)
   | name :: args =>
     let (base, wide) :=
       if name.endsWith "32" then ((name.dropEnd 2).toString, false)
@@ -68,12 +111,18 @@ def step (s : St) (toks : List String) : IO (St × Bool) := do
         let b := vals.getD 1 0
         if wide then
           let (line, w') := answer s.variant op true s.w64 (BitVec.ofNat 64 a) (BitVec.ofNat 64 b)
-          IO.println line; return ({ s with w64 := w' }, false)
+          IO.println line; return ({ noteNatives s op true with w64 := w' }, false)
         else
           let (line, w') := answer s.variant op false s.w32 (BitVec.ofNat 32 a) (BitVec.ofNat 32 b)
-          IO.println line; return ({ s with w32 := w' }, false)
+          IO.println line; return ({ noteNatives s op false with w32 := w' }, false)
     | _, _ => IO.println "bad-op"; return (s, false)
   | [] => return (s, false)
+
+/-- `T <op …>`: the op on a second thread: the model's answer is that of the op itself -/
+def step (s : St) (toks : List String) : IO (St × Bool) :=
+  match toks with
+  | "T" :: rest => stepCore s (if rest.isEmpty then ["T"] else rest)
+  | _ => stepCore s toks
 
 def run : IO Unit := do
   let _ ← forEachLine (← IO.getStdin) St {} step
